@@ -594,6 +594,8 @@ def step (H : Hashes) (dirLen : Nat) (s : State) : Op → State × Resp
     | some id =>
       if !alHas id s.uploads then (s, .err .NoSuchUpload)
       else
+        -- the part files of the upload, in whatever order the directory is read; then (1d762a7)
+        -- `parts.sort_by_key(|part| part.part_number)`: ascending part numbers
         let ps := s.parts.filterMap fun e => if e.1.1 = id then some (e.1.2, e.2.length) else none
         (s, .parts (sortParts ps))
   | .completeMultipartUpload who b k u parts =>
